@@ -15,17 +15,27 @@ pub struct Plan {
     pub horizon: u32,
     /// cap on executions (0 = none); hitting it is reported, never silently called exhaustive
     pub max_execs: u64,
+    /// the plan consists of the base schedule only (one execution; nothing else is claimed)
+    pub single: bool,
 }
 
 impl Plan {
     pub fn full() -> Self {
-        Plan { order: Order::Pb, bound: None, fair_k: 0, horizon: 20_000, max_execs: 0 }
+        Plan { order: Order::Pb, bound: None, fair_k: 0, horizon: 20_000, max_execs: 0, single: false }
     }
     pub fn pb(b: u32) -> Self {
-        Plan { order: Order::Pb, bound: Some(b), fair_k: 0, horizon: 20_000, max_execs: 0 }
+        Plan { order: Order::Pb, bound: Some(b), fair_k: 0, horizon: 20_000, max_execs: 0, single: false }
     }
     pub fn db(b: u32) -> Self {
-        Plan { order: Order::Db, bound: Some(b), fair_k: 0, horizon: 20_000, max_execs: 0 }
+        Plan { order: Order::Db, bound: Some(b), fair_k: 0, horizon: 20_000, max_execs: 0, single: false }
+    }
+    /// the non-preemptive base schedule alone: run the current thread until it blocks, then the lowest id
+    pub fn base_np() -> Self {
+        Plan { order: Order::Pb, bound: Some(0), fair_k: 0, horizon: 20_000, max_execs: 0, single: true }
+    }
+    /// the round-robin base schedule alone (identical to DB(0))
+    pub fn base_rr() -> Self {
+        Plan { order: Order::Db, bound: Some(0), fair_k: 0, horizon: 20_000, max_execs: 0, single: true }
     }
     pub fn with_fair(mut self, k: u32, horizon: u32) -> Self {
         self.fair_k = k;
@@ -41,6 +51,8 @@ impl Plan {
     }
     pub fn name(&self) -> String {
         let b = match (self.order, self.bound) {
+            (Order::Pb, _) if self.single => "BASE-NP".to_string(),
+            (Order::Db, _) if self.single => "BASE-RR".to_string(),
             (_, None) => "FULL".to_string(),
             (Order::Pb, Some(b)) => format!("PB({})", b),
             (Order::Db, Some(b)) => format!("DB({})", b),
@@ -112,6 +124,9 @@ pub fn explore(
         if next == Next::Stop {
             out.stopped = true;
             return out;
+        }
+        if plan.single {
+            break;
         }
         // cost of the choices up to each decision
         let mut cost = 0u32;
